@@ -58,6 +58,14 @@ impl SubstreamId {
     }
 }
 
+#[cfg(feature = "verif")]
+impl SubstreamId {
+    /// Verification hook: the raw substream number.
+    pub fn verif_as_usize(&self) -> usize {
+        self.0
+    }
+}
+
 /// Request ID.
 #[derive(Debug, Copy, Clone, Hash, PartialEq, Eq)]
 #[cfg_attr(feature = "fuzz", derive(serde::Serialize, serde::Deserialize))]
